@@ -78,4 +78,6 @@ pub use sym_tensor::{Constant, SymTensor};
 /// crate-private items so an external harness can call them directly.
 #[cfg(rten_verif)]
 #[doc(hidden)]
-pub mod verif {}
+pub mod verif {
+    pub use crate::sym_expr::verif_hooks as sym_expr;
+}
